@@ -1,6 +1,7 @@
 // Kani harnesses for rules/functions/converters.rs
 #![allow(dead_code, unused_imports)]
 use super::*;
+use crate::rules::path_value::Path;
 
 #[cfg(verif_replay)]
 #[path = "/verif/kani/shim.rs"]
@@ -12,4 +13,100 @@ macro_rules! lib_only {
             return;
         }
     };
+}
+include!("/verif/kani/common.rs");
+
+type Conv = crate::rules::Result<Vec<Option<PathAwareValue>>>;
+
+fn single(r: &Conv) -> Option<&Option<PathAwareValue>> {
+    match r {
+        Ok(v) => {
+            kani::assert(v.len() == 1, "element-wise: one output per input");
+            v.first()
+        }
+        Err(_) => None,
+    }
+}
+
+/// parse_char on an integer: the digit character for 0..=9, an error (never a wrong value) otherwise
+#[cfg_attr(kani, kani::proof)]
+#[cfg_attr(kani, kani::stub(alloc::fmt::format, fmt_stub))]
+#[cfg_attr(verif_replay, test)]
+fn k_parse_char_int() {
+    lib_only!();
+    let v: i64 = kani::any();
+    let args = vec![qr_int(v)];
+    let r = parse_char(&args);
+    if v >= 0 && v <= 9 {
+        match single(&r) {
+            Some(Some(PathAwareValue::Char((_, c)))) => kani::assert(*c as u32 == ('0' as u32) + (v as u32), "digit character"),
+            _ => kani::assert(false, "parse_char(0..=9) yields a char"),
+        }
+    } else {
+        kani::assert(r.is_err(), "parse_char raises an error for an integer that is not a digit");
+    }
+    std::mem::forget(r);
+    std::mem::forget(args);
+}
+
+/// parse_int on Int (identity) and on Char (decimal digit or error)
+#[cfg_attr(kani, kani::proof)]
+#[cfg_attr(kani, kani::stub(alloc::fmt::format, fmt_stub))]
+#[cfg_attr(verif_replay, test)]
+fn k_parse_int_int_char() {
+    lib_only!();
+    let v: i64 = kani::any();
+    let args = vec![qr_int(v)];
+    let r = parse_int(&args);
+    match single(&r) {
+        Some(Some(PathAwareValue::Int((_, i)))) => kani::assert(*i == v, "parse_int(n) == n"),
+        _ => kani::assert(false, "parse_int on an integer yields that integer"),
+    }
+    std::mem::forget(r);
+    std::mem::forget(args);
+    let c: char = kani::any();
+    let args = vec![qr_val(PathAwareValue::Char((Path::root(), c)))];
+    let r = parse_int(&args);
+    let is_digit = (c as u32) >= ('0' as u32) && (c as u32) <= ('9' as u32);
+    if is_digit {
+        match single(&r) {
+            Some(Some(PathAwareValue::Int((_, i)))) => kani::assert(*i == ((c as u32) - ('0' as u32)) as i64, "digit value"),
+            _ => kani::assert(false, "parse_int on a digit char yields its value"),
+        }
+    } else {
+        kani::assert(r.is_err(), "parse_int raises an error for a non-digit char");
+    }
+    std::mem::forget(r);
+    std::mem::forget(args);
+}
+
+/// parse_boolean on Bool (identity); converters skip (None) unresolved values and unsupported types
+#[cfg_attr(kani, kani::proof)]
+#[cfg_attr(kani, kani::stub(alloc::fmt::format, fmt_stub))]
+#[cfg_attr(verif_replay, test)]
+fn k_parse_bool_and_skips() {
+    lib_only!();
+    let b: bool = kani::any();
+    let args = vec![qr_val(PathAwareValue::Bool((Path::root(), b)))];
+    let r = parse_bool(&args);
+    match single(&r) {
+        Some(Some(PathAwareValue::Bool((_, x)))) => kani::assert(*x == b, "parse_boolean(b) == b"),
+        _ => kani::assert(false, "parse_boolean on a bool yields that bool"),
+    }
+    std::mem::forget(r);
+    std::mem::forget(args);
+    let args = vec![qr_unresolved(), qr_val(PathAwareValue::Null(Path::root()))];
+    let r1 = parse_bool(&args);
+    let r2 = parse_int(&args);
+    let r3 = parse_float(&args);
+    let r4 = parse_char(&args);
+    let r5 = parse_str(&args);
+    for r in [&r1, &r2, &r3, &r4, &r5] {
+        match r {
+            Ok(v) => kani::assert(v.len() == 2 && v[0].is_none() && v[1].is_none(), "unresolved values and unsupported types are skipped"),
+            Err(_) => kani::assert(false, "skipping is not an error"),
+        }
+    }
+    std::mem::forget((r1, r2, r3, r4, r5));
+    std::mem::forget(args);
 }
